@@ -9,8 +9,8 @@ class C02(Prop):
     title = "Session lifecycle for N UEs: establish, service request, release, deregister"
     lean_module = "Stgutg.Props.C02"
     extra_modules = ["Stgutg.Proofs.BuildersLife", "Stgutg.Props.C02Steps", "Stgutg.Props.C02Life", "Stgutg.Props.C02History",
-                     "Stgutg.Props.C02Script", "Stgutg.Proofs.EmulatorLife", "Stgutg.Props.C02Accepted", "Stgutg.Props.C02Traffic", "Stgutg.Proofs.GenTieMin"]
-    gen = ["schema", "registry", "templates", "nasie", "naslayout", "nassetters", "extract", "script", "tables", "traffic", "pure-min"]
+                     "Stgutg.Props.C02Script", "Stgutg.Proofs.EmulatorLife", "Stgutg.Props.C02Accepted", "Stgutg.Props.C02Traffic", "Stgutg.Proofs.GenTieMin", "Stgutg.Gen.PureSelftest"]
+    gen = ["schema", "registry", "templates", "nasie", "naslayout", "nassetters", "extract", "script", "tables", "traffic", "pure-min", "pure-selftest"]
     theorems = ["Stgutg.Proofs.GenTie.Min.Min_eq"] + ["Stgutg.Props.C02Traffic." + t for t in [
         # the traffic-mode branch of main (not runnable here: XDP) makes the calls of test mode with counts (N, N, 0, N, N)
         "C02_traffic_structure", "C02_traffic_calls", "C02_traffic_no_trap", "test_mode_skeleton", "C02_traffic_is_test_mode",
@@ -57,7 +57,8 @@ class C02(Prop):
     trusted_base = list(__import__("vlib.props_C01", fromlist=["C01"]).C01.trusted_base) + [
         "TIE BY TRANSLATION (gen pure-min -> lean/Stgutg/Gen/PureMin.lean, regenerated from the source text of stgutg.Min on every run): "
         "GenTie.Min.Min_eq proves generated definition = Model.FailStop.goMin (the clamp the C02 theorems use) for all integers; trusted "
-        "instead of sampling: the grammar of harness/cmd/gen/pure*.go and its runtime Gen/PureRt.lean"]
+        "instead of sampling: the grammar of harness/cmd/gen/pure*.go and its runtime Gen/PureRt.lean, themselves checked against the Go "
+        "compiler on every run (gen pure-selftest -> Gen/PureSelftest.lean: results of executing the compiled self-test functions, 97 calls)"]
     assumptions = ["the peer answers every read with a decodable NGAP message of the expected type (fail-stop behaviour is C19); "
                    "the setup request's item carries a DL NAS TRANSPORT[PDU SESSION ESTABLISHMENT ACCEPT] with an IPv4 address and "
                    "a transfer with a GTP tunnel (C12's domain)",
